@@ -56,6 +56,17 @@ DATASET_TEMPLATES = [
     ("udo_scale({a}, {s})", "S", {"a": "udo-dataset-arg", "s": "udo-scalar-arg"}),
     ("udo_thr({a}, {s})", "S", {"a": "udo-dataset-arg", "s": "udo-scalar-arg"}),
     ("udo_add({a}[calc Me_1 := Me_1 + {s}], {b})", "S", {"a": "udo-dataset-arg", "s": "clause", "b": "udo-dataset-arg"}),
+    ("udo_cmp({a}, Me_1)", "S", {"a": "udo-dataset-arg"}),
+    ("udo_mix({a}, {s}, {b})", "S", {"a": "udo-dataset-arg", "s": "udo-scalar-arg", "b": "udo-dataset-arg"}),
+    # scalar results inside *expressions* in argument positions (a bare name may be inlined, an expression is evaluated)
+    ("udo_scale({a}, {s} + 1)", "S", {"a": "udo-dataset-arg", "s": "udo-scalar-arg-expr"}),
+    ("udo_thr({a}, {s} * 2 - {t})", "S", {"a": "udo-dataset-arg", "s": "udo-scalar-arg-expr", "t": "udo-scalar-arg-expr"}),
+    ("udo_mix({a}, abs({s}), {b})", "S", {"a": "udo-dataset-arg", "s": "udo-scalar-arg-expr", "b": "udo-dataset-arg"}),
+    ("{a} * ({s} + 1)", "S", {"a": "direct", "s": "direct-scalar-expr"}),
+    ("nvl({a}, {s} - 1)", "S", {"a": "direct", "s": "direct-scalar-expr"}),
+    ("{a}[filter Me_1 > {s} * 2 - {t}]", "S", {"a": "clause-operand", "s": "clause-expr", "t": "clause-expr"}),
+    ("between({a}, {s} - 1, {t} + 1)", "X", {"a": "direct", "s": "direct-scalar-expr", "t": "direct-scalar-expr"}),
+    ("if {a}#Me_1 > {s} + {t} then {b} else {a}", "S", {"a": "membership", "s": "direct-scalar-expr", "t": "direct-scalar-expr", "b": "direct"}),
     ("round({a} / 3, {k})", "S", {"a": "direct"}),
     ("abs({a}) + abs({b})", "S", {"a": "direct", "b": "direct"}),
     ("power({a}, {s})", "S", {"a": "direct", "s": "direct-scalar"}),
@@ -98,6 +109,9 @@ DEFS = {
     "udo_add": "define operator udo_add (x dataset, y dataset) returns dataset is x + y end operator;",
     "udo_scale": "define operator udo_scale (x dataset, k number) returns dataset is x * k end operator;",
     "udo_thr": "define operator udo_thr (x dataset, k number default 2) returns dataset is x[filter Me_1 > k] end operator;",
+    "udo_cmp": "define operator udo_cmp (x dataset, c component) returns dataset is x[calc Me_1 := c * 2] end operator;",
+    "udo_twice": "define operator udo_twice (x dataset, y dataset) returns dataset is udo_add(udo_add(x, y), y) end operator;",
+    "udo_mix": "define operator udo_mix (x dataset, k number, y dataset) returns dataset is x * k + y end operator;",
     "dpr_1": 'define datapoint ruleset dpr_1 (variable Me_1) is r1: Me_1 > 2 errorcode "low" errorlevel 1; r2: Me_1 < 100 end datapoint ruleset;',
     "hr_1": 'define hierarchical ruleset hr_1 (variable rule Id_2) is A = B + C errorcode "h" errorlevel 2; B >= C end hierarchical ruleset;',
 }
@@ -175,6 +189,8 @@ def generate(rng, *, n_inputs=None, n_statements=None, rows=None, carriers=("df"
         for d in DEFS:
             if d in expr:
                 defs_used.add(d)
+        if "udo_twice" in expr:
+            defs_used.add("udo_add")
         for slot, kind in kinds.items():
             v = vals[slot]
             if v[0].isalpha():
@@ -300,6 +316,8 @@ def pairwise_script(desc):
         for d in DEFS:
             if d in expr:
                 defs_used.add(d)
+        if "udo_twice" in expr:
+            defs_used.add("udo_add")
         edges.append((pname, name, kinds[slot]))
         return "%s %s %s;" % (name, "<-" if persistent else ":=", expr)
 
